@@ -109,7 +109,9 @@ def run_case(case):
     return res
 
 
-TEXT = st.text(alphabet="abc xyz\n\t[]0123;m?HJ~é中", min_size=1, max_size=5)
+_TEXT_ALPHA = "abc xyz\n\t[]0123;m?HJ~é中"
+TEXT = st.one_of(st.text(alphabet=_TEXT_ALPHA, min_size=1, max_size=5), st.text(alphabet=_TEXT_ALPHA, min_size=1, max_size=5),
+                 st.text(alphabet=_TEXT_ALPHA, min_size=30, max_size=200))
 FINALS = "mmmmHJKABCDfGsudhlr@`~"
 SGR_PARAMS = st.one_of(
     st.lists(st.sampled_from([0, 1, 2, 3, 4, 5, 7, 22, 24, 27, 31, 32, 39, 41, 44, 49, 90, 97, 100]), min_size=0, max_size=3),
